@@ -1,5 +1,5 @@
 """Shared machinery of the checks: builds, proof audit, correspondence runs, evidence, verdicts."""
-import os, sys, re, json, subprocess, hashlib, time, shutil, tempfile, fcntl, random
+import os, time, sys, re, json, subprocess, hashlib, time, shutil, tempfile, fcntl, random
 
 HERE = os.path.dirname(os.path.abspath(__file__))
 ROOT = os.path.dirname(HERE)
@@ -357,16 +357,55 @@ def leanchecker(module, timeout=1800):
 
 
 # ---------------------------------------------------------------- correspondence
-def _run_lines(exe, lines, env=None, timeout=3600):
+def _run_lines(exe, lines, env=None, timeout=3600, stall=None):
+    """feed `lines` to `exe`; returns (rc, reply lines, stderr tail).  A process that produces no further reply for
+    `stall` seconds (default min(timeout, 150)), or runs longer than `timeout`, is killed: rc = 124 and the replies
+    produced so far are returned (a hang is a result, not a crash of the check)."""
+    import threading
     if env is None:
         # many harness processes run side by side: OpenMP teams must sleep, not spin, while waiting
         env = dict(os.environ)
         env.setdefault("OMP_WAIT_POLICY", "passive")
         env.setdefault("GOMP_SPINCOUNT", "0")
+    stall = stall or min(timeout, 150)
     data = ("\n".join(lines) + "\n").encode()
-    p = subprocess.run([exe], input=data, stdout=subprocess.PIPE, stderr=subprocess.PIPE, timeout=timeout, env=env)
-    out = p.stdout.decode().splitlines()
-    return p.returncode, out, p.stderr.decode()[-2000:]
+    p = subprocess.Popen([exe], stdin=subprocess.PIPE, stdout=subprocess.PIPE, stderr=subprocess.PIPE, env=env)
+    out, errb = [], []
+    last = [time.time()]
+
+    def rd_out():
+        for l in p.stdout:
+            out.append(l.decode(errors="replace").rstrip("\n"))
+            last[0] = time.time()
+
+    def rd_err():
+        errb.append(p.stderr.read())
+
+    def wr():
+        try:
+            p.stdin.write(data)
+            p.stdin.close()
+        except (BrokenPipeError, OSError):
+            pass
+    ths = [threading.Thread(target=f, daemon=True) for f in (rd_out, rd_err, wr)]
+    for t in ths:
+        t.start()
+    t0 = time.time()
+    killed = False
+    while p.poll() is None:
+        time.sleep(0.05)
+        now = time.time()
+        if now - last[0] > stall or now - t0 > timeout:
+            p.kill()
+            killed = True
+            break
+    p.wait()
+    for t in ths:
+        t.join(timeout=5)
+    err = (errb[0] if errb else b"").decode(errors="replace")[-2000:]
+    if killed:
+        return 124, out, err + "\n[killed: no reply for %ds or total > %ds]" % (stall, timeout)
+    return p.returncode, out, err
 
 
 class _AnyReply(str):
@@ -409,11 +448,11 @@ def run_parallel(exe, lines, jobs=None, env=None, timeout=3600):
         outs = list(out[:len(ls)])
         k = len(outs)
         while k < len(ls):
-            rc2, o2, e2 = _run_lines(exe, [ls[k]], env=env, timeout=timeout)
+            rc2, o2, e2 = _run_lines(exe, [ls[k]], env=env, timeout=min(timeout, 300))
             if o2 and rc2 == 0:
                 outs.append(o2[0])
             else:
-                tag = "crash rc=%d" % rc2
+                tag = ("hang (killed)" if rc2 == 124 else "crash rc=%d" % rc2)
                 m = re.search(r"(AddressSanitizer: [\w-]+|runtime error: [^\n]{0,80}|Assertion[^\n]{0,80})", e2)
                 if m:
                     tag += " " + m.group(1)
